@@ -171,7 +171,10 @@ class Spec(core.PropSpec):
                     hook=kind, epochs=epochs, drop_last=rw.random() < 0.5, prefetch=rw.choice([1, 2, 3]), seed=ro.randint(0, 10 ** 6),
                     sched_seed=ro.getrandbits(32), perm_seed=ro.getrandbits(16),
                     main_pre_access=[ro.randint(0, 3) for _ in range(ro.randint(1, 3))] if ro.random() < 0.25 else [],
-                    start_method=ro.choice(["fork", "fork", "spawn"]), preempt_rate=ro.choice([0, 0, 0.05, 0.2, 0.5]))
+                    start_method=ro.choice(["fork", "fork", "spawn"]), preempt_rate=ro.choice([0, 0, 0.05, 0.2, 0.5]),
+                    # a corrupt sample makes the INNER transform raise - as the last sample of one of a worker's batches, so that all
+                    # batches stay full; the consumer catches the failed batch and carries on with the same loader
+                    inner_fault=dict(batch_of_worker=ro.randint(0, 2), ranks=ro.choice([None, [0], [1]])) if ro.random() < 0.2 else None)
 
     def shrink_candidates(self, plan):
         if plan["cls"] == "shared":
@@ -189,6 +192,8 @@ class Spec(core.PropSpec):
                 yield dict(plan, main_pre_access=[])
             if plan.get("preempt_rate"):
                 yield dict(plan, preempt_rate=0)
+            if plan.get("inner_fault"):
+                yield dict(plan, inner_fault=None)
             if plan.get("start_method") == "spawn":
                 yield dict(plan, start_method="fork")
 
@@ -462,7 +467,7 @@ class Spec(core.PropSpec):
         from simkit.chooser import Chooser
         from simkit.deep import deep_diff, h
         from simkit.simloader import SimDataLoader
-        from .simdata import TensorDataset, identity_collate
+        from .simdata import TensorDataset, identity_collate, InjectedReadError
         L = C.leaves()
         K, B, NB = plan["K"], plan["B"], plan["n_batches"]
         site = plan["inner"]
@@ -470,8 +475,18 @@ class Spec(core.PropSpec):
             out.rejected = True
             return
         sched_obj = make_schedule(plan["schedule"])
+        inf = plan.get("inner_fault") if plan.get("nest", "plain") == "plain" and plan["main_pre_access"] == [] else None
+        from .simdata import FaultyCallTransform
+
+        def with_fault(t, armed):
+            if inf is None:
+                return t
+            fc = FaultyCallTransform(fail_call=(inf["batch_of_worker"] + 1) * B - 1 if armed else None,
+                                     fail_ranks=None if inf["ranks"] is None else set(inf["ranks"]))
+            return kdt.KDComposeTransform([fc, t])
+
         try:
-            st = kdt.KDScheduledTransform(L[plan["inner"]]["make"](), schedule=sched_obj)
+            st = kdt.KDScheduledTransform(with_fault(L[plan["inner"]]["make"](), True), schedule=sched_obj)
             nest = plan.get("nest", "plain")
             top = st
             if nest == "compose":
@@ -519,6 +534,7 @@ class Spec(core.PropSpec):
             start_method = plan.get("start_method", "fork")
             preempt = dict(seed=plan["sched_seed"], rate=plan["preempt_rate"]) if plan.get("preempt_rate") else None
             switches = 0
+            deliver_errors = inf is not None
 
         try:
             for i in plan.get("main_pre_access") or []:
@@ -551,7 +567,15 @@ class Spec(core.PropSpec):
         else:
             ref_sched_reported = st.schedule
         key = st.ctx_key
+        from simkit.simloader import BatchFailure
         for b, samples in enumerate(delivered):
+            if isinstance(samples, BatchFailure):
+                if core.caused_by(samples.exc, InjectedReadError):
+                    out.count("fault:corrupt_sample_in_inner_transform_batch_lost")
+                    out.ev("batch-lost", b)
+                    continue
+                out.violate(f"C15:schedule-raises:{type(samples.exc).__name__}", site, f"batch {b}: {type(samples.exc).__name__}: {samples.exc}")
+                break
             want = ref_sched.get_value(b, NB)
             got = []
             for (index, x), ctx in samples:
@@ -569,7 +593,7 @@ class Spec(core.PropSpec):
                 # the sample must be what a replica scaled with exactly that value produces
                 for (idx, x), ctx in samples:
                     # reference: the same seeded wrapper around the (unscheduled) inner transform scaled by exactly that value
-                    rep = L[plan["inner"]]["make"]()
+                    rep = with_fault(L[plan["inner"]]["make"](), False)
                     rep.scale_strength(want)
                     if plan.get("nest") == "compose2":
                         rep = kdt.KDComposeTransform([rep, kdt.KDRandomHorizontalFlip(p=0.0)])
